@@ -98,7 +98,7 @@ def expected_token(sc, i, shape='ok'):
     return want
 
 
-async def run_scenario(mods, sc, id_step=1):
+async def run_scenario(mods, sc, id_step=1, fail_draws=(True, True)):
     jr, rawsocket, session_mod, curio = mods
     proto = getattr(jr, PROTO_CLASS[sc['proto']])
     rng = random.Random(sc['seed'])
@@ -336,7 +336,8 @@ async def run_scenario(mods, sc, id_step=1):
     for e in history:
         if e[0] == 'create':
             c = created[e[1]]
-            rs.drew(c['n'], c['ids'])
+            used = c['n'] if c['ids'] is not None or fail_draws[0 if c['op'][0] == 'S' else 1] else 0
+            rs.drew(used, c['ids'])
             conn_ops.append(c['op'])
             if c['fut'] is not None:
                 ticket_of[e[1]] = nt
@@ -562,8 +563,7 @@ def scenarios(rng, n, tier='quick'):
     out = basic_scenarios(rng, n)
     out += reply_scenarios()
     if tier == 'quick':
-        out += backpressure_scenarios(('v2',), laters=(0, 2, 3))
-        out += backpressure_scenarios(('loose', 'v1'), laters=(2,), seed=1000)
+        out += backpressure_scenarios(('v2', 'loose', 'v1', 'auto'), laters=(0, 2, 3))
     else:
         out += backpressure_scenarios(('v2', 'loose', 'v1', 'auto'), laters=(0, 1, 2, 3))
     return out
@@ -575,13 +575,14 @@ def _evaluate(ctx, scs, res):
     session_mod = fresh_import(ctx.repo, 'aiorpcx.session')
     curio = fresh_import(ctx.repo, 'aiorpcx.curio')
     mods = (jr, rawsocket, session_mod, curio)
-    id_step = (ctx.facts or {}).get('id_step', 1) or 1
+    from harness.c01 import id_params
+    id_step, fail_draws = id_params(ctx.facts)
 
     async def go(part):
         out = []
         for sc in part:
             try:
-                out.append(await run_scenario(mods, sc, id_step))
+                out.append(await run_scenario(mods, sc, id_step, fail_draws))
             except (vloop.Deadlock, vloop.Livelock) as e:
                 out.append({'hang': type(e).__name__})
         return out
